@@ -7,8 +7,10 @@ import (
 	"strings"
 	"testing"
 
+	"github.com/apmckinlay/gsuneido/compile/ast"
 	"github.com/apmckinlay/gsuneido/core"
 	"github.com/apmckinlay/gsuneido/core/types"
+	qry "github.com/apmckinlay/gsuneido/dbms/query"
 	"pgregory.net/rapid"
 	"verifharness/internal/ev"
 	"verifharness/internal/gen"
@@ -120,6 +122,7 @@ func checkExpr(t *rapid.T, rec *ev.Rec, e *node, src string, rows [][]*val) {
 			termFns[i] = compileFn("a,b,c", tm.String())
 		}
 	}
+	rq := newRequest(t, rec, e, src)
 	ri := observeRaw(src)
 	nops := e.nops()
 	nt := nops >= 2 && ri.ok && ri.rawNodes >= 1
@@ -202,17 +205,19 @@ func checkExpr(t *rapid.T, rec *ev.Rec, e *node, src string, rows [][]*val) {
 		func() {
 			tb := gen.Pick(t, "table", tables)
 			rec.Label("table_" + tb)
-			wo := d.query(tb+" where "+src, "")
-			xo := d.query(tb+" extend x = "+src, "x")
+			rec.LabelIf(rq.boundHit(row), "valuation_equals_bound_of_range_on_renamed_column")
+			whereQ, extendQ := rq.texts(tb)
+			wo := d.query(whereQ, "")
+			xo := d.query(extendQ, "x")
 			brief := func() map[string]any {
 				return map[string]any{"expr": src, "row": fmt.Sprint(row), "lang": lr.String(), "where": wo.String(), "where_strategy": wo.strat,
 					"extend": xo.String(), "raw_nodes": ri.rawNodes, "value_nodes": ri.valNodes}
 			}
 			info := func() string {
 				// diagnosis only: the same requests again, and the table contents
-				again := fmt.Sprintf("\nagain:  where %v | extend %v | %s holds %v, %s holds %v", d.query(tb+" where "+src, ""), d.query(tb+" extend x = "+src, "x"),
+				again := fmt.Sprintf("\nagain:  where %v | extend %v | %s holds %v, %s holds %v", d.query(whereQ, ""), d.query(extendQ, "x"),
 					tables[0], d.query(tables[0], "k"), tables[1], d.query(tables[1], "k"))
-				return again + fmt.Sprintf("\nexpr:   %s\nrow:    a=%v b=%v c=%v\npacked: a=%x b=%x c=%x\nlang:   %v\nwhere:  %v   [%s]\nextend: %v   [%s]\nraw: whole=%v rawNodes=%d valueNodes=%d",
+				return again + "\nrequests: " + whereQ + "  |  " + extendQ + fmt.Sprintf("\nexpr:   %s\nrow:    a=%v b=%v c=%v\npacked: a=%x b=%x c=%x\nlang:   %v\nwhere:  %v   [%s]\nextend: %v   [%s]\nraw: whole=%v rawNodes=%d valueNodes=%d",
 					src, row[0], row[1], row[2], row[0].packed, row[1].packed, row[2].packed, lr, wo, wo.strat, xo, xo.strat, ri.whole, ri.rawNodes, ri.valNodes)
 			}
 
@@ -439,4 +444,153 @@ func divisorChainInexact(w *walkT, e *node) bool {
 		}
 	})
 	return found
+}
+
+//-------------------------------------------------------------------
+// request shapes: the where / extend sits above operators whose Transform
+// rewrites the expression (rename: renameExpr, extend: replaceExpr, project,
+// union). The expression is written over the new column names; the language
+// function keeps the original names and gets the same row values.
+
+type request struct {
+	shape   string
+	names   map[string]string // column -> name used by the expression
+	mid     map[string]string // nested rename: column -> intermediate name
+	qsrc    string
+	project bool
+	// two-sided ranges (InRange) on a renamed column: packed bounds per column
+	bounds map[string][]string
+}
+
+var shapeNames = []string{"plain", "rename", "rename_rename", "extend_alias", "project", "union_of_renames"}
+
+func newRequest(t *rapid.T, rec *ev.Rec, e *node, src string) *request {
+	rq := &request{names: map[string]string{}, mid: map[string]string{}, bounds: map[string][]string{}}
+	rq.shape = shapeNames[gen.Weighted(t, "shape", []int{40, 22, 8, 12, 7, 11})]
+	used := e.usedCols()
+	if rq.shape != "plain" && !(rq.shape == "project" && gen.Chance(t, "projectPlain", 40)) {
+		// mostly every column of the expression gets a new name, else a random subset
+		all := gen.Chance(t, "renameAllUsed", 70)
+		for _, c := range cols {
+			isUsed := false
+			for _, u := range used {
+				isUsed = isUsed || u == c
+			}
+			if (all && isUsed) || (!all && gen.Chance(t, "renameCol", 50)) {
+				rq.names[c] = "r" + c
+				rq.mid[c] = "p" + c
+			}
+		}
+		if len(rq.names) == 0 {
+			c := cols[0]
+			if len(used) > 0 {
+				c = used[0]
+			}
+			rq.names[c], rq.mid[c] = "r"+c, "p"+c
+		}
+	}
+	if len(rq.names) == 0 && rq.shape != "project" {
+		rq.shape = "plain"
+	}
+	rq.project = rq.shape == "project"
+	rec.Label("request_" + rq.shape)
+	rq.qsrc = e.renamedString(rq.names)
+	if rq.shape != "plain" {
+		rec.Label("where_and_extend_above_expression_rewriting_operator")
+		rq.findRanges(src)
+		rec.LabelIf(len(rq.bounds) > 0, "InRange_on_renamed_column")
+	}
+	return rq
+}
+
+// findRanges records the InRange nodes (as the folder builds them) whose
+// column the request renames.
+func (rq *request) findRanges(src string) {
+	defer func() { recover() }()
+	p := qry.NewQueryParser(src, nil, nil)
+	p.EqToIs = true
+	var visit func(e ast.Node) ast.Node
+	visit = func(e ast.Node) ast.Node {
+		if r, ok := e.(*ast.InRange); ok {
+			if id, ok := r.E.(*ast.Ident); ok {
+				if _, renamed := rq.names[id.Name]; renamed {
+					po, ok1 := constPacked(r.Org)
+					pe, ok2 := constPacked(r.End)
+					if ok1 && ok2 {
+						rq.bounds[id.Name] = append(rq.bounds[id.Name], po, pe)
+					}
+				}
+			}
+		}
+		e.Children(visit)
+		return e
+	}
+	visit(p.Expression())
+}
+
+func (rq *request) boundHit(row []*val) bool {
+	for i, c := range cols {
+		for _, b := range rq.bounds[c] {
+			if row[i].packed == b {
+				return true
+			}
+		}
+	}
+	return false
+}
+
+func (rq *request) renameClause(from, to map[string]string) string {
+	var parts []string
+	for _, c := range cols {
+		if n, ok := to[c]; ok {
+			f := c
+			if from != nil {
+				f = from[c]
+			}
+			parts = append(parts, f+" to "+n)
+		}
+	}
+	if len(parts) == 0 {
+		return ""
+	}
+	return " rename " + strings.Join(parts, ", ")
+}
+
+func (rq *request) source(tb string) string {
+	switch rq.shape {
+	case "rename":
+		return tb + rq.renameClause(nil, rq.names)
+	case "rename_rename":
+		return tb + rq.renameClause(nil, rq.mid) + rq.renameClause(rq.mid, rq.names)
+	case "extend_alias":
+		var parts []string
+		for _, c := range cols {
+			if n, ok := rq.names[c]; ok {
+				parts = append(parts, n+" = "+c)
+			}
+		}
+		return tb + " extend " + strings.Join(parts, ", ")
+	case "project":
+		list := []string{"k"}
+		for _, c := range cols {
+			if n, ok := rq.names[c]; ok {
+				list = append(list, n)
+			} else {
+				list = append(list, c)
+			}
+		}
+		return tb + rq.renameClause(nil, rq.names) + " project " + strings.Join(list, ", ")
+	case "union_of_renames":
+		other := tables[0]
+		if tb == other {
+			other = tables[1]
+		}
+		return "((" + tb + rq.renameClause(nil, rq.names) + ") union (" + other + rq.renameClause(nil, rq.names) + "))"
+	}
+	return tb
+}
+
+func (rq *request) texts(tb string) (whereQ, extendQ string) {
+	s := rq.source(tb)
+	return s + " where " + rq.qsrc, s + " extend x = " + rq.qsrc
 }
